@@ -147,6 +147,7 @@ def sub_sim3(case):
         raise Mismatch("sim3_scale: %r != %r" % (got, s), observed="value")
     Si = lie.sim3_inverse(S)
     tol = 64 * EPS * (1 + np.abs(t).max() * max(1.0, 1 / s)) * max(1.0, s, 1 / s)
+    near_one = abs(s - 1.0) <= 1e-4 and s != 1.0
     _close(S @ Si, np.eye(4), tol, "S * S^-1 != I")
     _close(Si @ S, np.eye(4), tol, "S^-1 * S != I")
     _close(Si, rm.sim3_inv(S), tol, "sim3_inverse != reference")
@@ -162,7 +163,7 @@ def sub_sim3(case):
     # effect on a point: S p = s R p + t
     p = np.array([0.3, -1.7, 2.9, 1.0])
     _close((S @ p)[:3], s * (R @ p[:3]) + t, tol * 8, "S p != s R p + t")
-    return "extreme_scale" if abs(math.log10(s)) >= 2 else "generic"
+    return "extreme_scale" if abs(math.log10(s)) >= 2 else ("scale_near_1" if near_one else "generic")
 
 
 # ---- 6. angle metric ----------------------------------------------------------------------------
@@ -293,7 +294,8 @@ def sub_member(case):
 
 st_t = st.lists(gen.unit_f, min_size=3, max_size=3)
 st_pose = st.fixed_dictionaries({"rot": gen.st_rotation, "t": st_t, "mag": gen.log_uniform(-6, 9)})
-st_scale = gen.log_uniform(-4, 4)
+st_scale = st.one_of(gen.log_uniform(-4, 4), gen.log_uniform(-4, 4),
+                     st.sampled_from([1.0, 1 + 1e-9, 1 - 1e-9, 1 + 2e-7, 1 - 2e-7, 1 + 2e-6, 1 - 3e-6, 1 + 1e-5, 1 - 1e-5, 1.001, 0.999]))
 st_near = st.one_of(
     st.fixed_dictionaries({"kind": st.just("genuine"), "d": st.just(0.0), "n": st.sampled_from([1, 2, 10, 100, 1000])}),
     st.fixed_dictionaries({"kind": st.just("reflection"), "d": st.just(2.0), "i": st.integers(0, 2)}),
@@ -315,7 +317,7 @@ SUBS = [
     Sub("se3", sub_se3, st.fixed_dictionaries({"A": st_pose, "B": st_pose}), 3000, 150000,
         nontrivial=lambda c: max(c["A"]["mag"], c["B"]["mag"]) >= 1e6),
     Sub("sim3", sub_sim3, st.fixed_dictionaries({"P": st_pose, "s": st_scale}), 3000, 150000,
-        nontrivial=lambda c: abs(math.log10(c["s"])) >= 2 or c["P"]["mag"] >= 1e6),
+        nontrivial=lambda c: abs(math.log10(c["s"])) >= 2 or c["P"]["mag"] >= 1e6 or (c["s"] != 1.0 and abs(c["s"] - 1.0) <= 1e-4)),
     Sub("metric", sub_metric, st.fixed_dictionaries({"A": gen.st_rotation, "B": gen.st_rotation, "C": gen.st_rotation}), 3000, 150000,
         nontrivial=lambda c: _near_end(rm.rot_angle_between(gen.rot_matrix(c["A"]), gen.rot_matrix(c["B"])))),
     Sub("member", sub_member, st.fixed_dictionaries({"P": st_pose, "s": st_scale, "near": st_near}), 4000, 200000,
